@@ -4,10 +4,16 @@ go 1.16
 
 require (
 	github.com/ipfs/go-cid v0.0.7
+	github.com/ipfs/go-ipns v0.1.0
 	github.com/ipfs/ipfs-cluster v0.0.0
+	github.com/libp2p/go-libp2p v0.14.3
 	github.com/libp2p/go-libp2p-core v0.8.5
 	github.com/libp2p/go-libp2p-gorpc v0.1.3
+	github.com/libp2p/go-libp2p-kad-dht v0.12.2
+	github.com/libp2p/go-libp2p-pubsub v0.4.1
+	github.com/libp2p/go-libp2p-record v0.1.3
 	github.com/multiformats/go-multihash v0.0.15
+	github.com/ugorji/go/codec v1.2.6
 )
 
 replace github.com/ipfs/ipfs-cluster => /repo
